@@ -156,8 +156,8 @@ func (env *TravEnv) CompileClass() string {
 // ---------------------------------------------------------------------------- controls
 
 type TravCtl struct {
-	NodeBudget int64 // -1: none
-	LinkBudget int64 // -1: none
+	NodeBudget int64    // -1: none
+	LinkBudget int64    // -1: none
 	Start      []string // start-at path segments (strings); nil: none
 	HasStart   bool
 	Once       bool
@@ -324,8 +324,6 @@ func WalkErrClass(err error) string {
 	return "other"
 }
 
-type skipReader struct{}
-
 // Run performs Progress.WalkAdv (or WalkMatching) over the case under the given controls and returns
 // the events in order (visits and storage reads) and the error class.
 func (env *TravEnv) Run(ctl TravCtl, matching bool) ([]TravEvent, string) {
@@ -393,11 +391,11 @@ var TravKeys = []string{"a", "b", "c", "x", "0", "1", "2", "01", "+1", "-1", "",
 var travStrs = []string{"", "a", "hello", "hello world", "é€x", "0123456789", "\xff\xfe", "/"}
 
 type TravGen struct {
-	Exp     map[string]int // link-expanded size of each stored block (bounds the length of a full walk)
-	cur     int            // link-expanded size of the value being generated
-	R       *Rng
-	Cids    []string // stored blocks
-	Missing []string // CIDs of blocks that were not stored
+	Exp      map[string]int // link-expanded size of each stored block (bounds the length of a full walk)
+	cur      int            // link-expanded size of the value being generated
+	R        *Rng
+	Cids     []string // stored blocks
+	Missing  []string // CIDs of blocks that were not stored
 	MaxDepth int
 }
 
@@ -895,12 +893,12 @@ func TravInteresting(r *Rng, tc *TravCase) bool {
 }
 
 // ---- selector declaration helpers (the data-model encoding)
-func SelMatcher() *Val            { return m1(".", Map()) }
+func SelMatcher() *Val { return m1(".", Map()) }
 func SelSubset(from, to int64) *Val {
 	return m1(".", m1("subset", Map(Entry{"[", Int(from)}, Entry{"]", Int(to)})))
 }
-func SelAll(next *Val) *Val       { return m1("a", m1(">", next)) }
-func SelEdge() *Val               { return m1("@", Map()) }
+func SelAll(next *Val) *Val { return m1("a", m1(">", next)) }
+func SelEdge() *Val         { return m1("@", Map()) }
 func SelIndex(i int64, next *Val) *Val {
 	return m1("i", Map(Entry{"i", Int(i)}, Entry{">", next}))
 }
@@ -926,3 +924,28 @@ func SelRec(depth int64, seq *Val, stop string) *Val {
 }
 
 const SelNoLimit = int64(-1 << 40)
+
+// TravWitnesses: one (selector, tree) per confirmed deviation of the selector code plus the neighbouring
+// selector that behaves as specified.  Every harness of the traversal cluster emits them first (ids k...): the
+// model driver uses these records to find out which deviations the tree under test still has.
+func TravWitnesses() []*TravCase {
+	M, A, E := SelMatcher, SelAll, SelEdge
+	ints := func(xs ...int64) *Val {
+		v := List()
+		for _, x := range xs {
+			v.L = append(v.L, Int(x))
+		}
+		return v
+	}
+	deep := List(List(List(List(List(List(List(Int(1))))))))
+	xa := Map(Entry{"x", Map(Entry{"a", Map(Entry{"a", Int(1)})})})
+	return []*TravCase{
+		{Sel: SelUnion(SelIndex(1, M()), SelRange(0, 3, M())), Root: ints(10, 11, 12)},     // union_dup
+		{Sel: SelRec(1, A(SelUnion(E(), SelFields(Entry{"a", E()}))), ""), Root: xa},       // exhausted_unwrap
+		{Sel: SelRec(1, A(E()), ""), Root: xa},                                             //   neighbour
+		{Sel: SelRec(SelNoLimit, SelUnion(E(), A(E())), ""), Root: List(ints(1), ints(2))}, // bare_edge_panic
+		{Sel: SelRec(3, SelUnion(A(E()), A(A(E()))), ""), Root: deep},                      // shared_depth (+unwrap)
+		{Sel: SelRec(3, A(A(E())), ""), Root: deep},                                        //   neighbour
+		{Sel: SelRec(2, SelUnion(A(M()), A(E())), ""), Root: deep},                         // shared_depth alone
+	}
+}
